@@ -337,6 +337,13 @@ def board_trace(job) -> List[Dict[str, Any]]:
                 if obs:
                     o_ = obs[active]
                     evs.append(ev_play(tid, o_, active, r.choice(legal), via='int'))
+            if active == dummy and obs and hands[dummy] and r.random() < 0.5:
+                # on dummy's turn a play attributed to DECLARER (who calls dummy's
+                # cards, but it is dummy's play): refused, whatever the card
+                c_d = r.choice(sorted(hands[dummy]) + sorted(hands[decl]))
+                evs.append(ev_play(tid, man, decl, c_d))
+                for o in obs:
+                    evs.append(ev_play(tid, o, decl, c_d))
             if trick and r.random() < 0.5:
                 # an echo: a card of the open trick offered again by the seat that played it
                 j_ = r.randrange(len(trick))
@@ -389,6 +396,12 @@ def board_trace(job) -> List[Dict[str, Any]]:
             trick = []
             trick_seats = []
         if k == 0:
+            if hsum % 5 == 2 and hands[dummy]:
+                # dummy's cards arrive late: a play for dummy before they are shown
+                # is refused (and changes nothing); then they are shown
+                for o in obs:
+                    if o.me != dummy:
+                        evs.append(ev_play(tid, o, dummy, sorted(hands[dummy])[0]))
             for o in obs:
                 # the observer in dummy's seat is shown "dummy's cards" too in every
                 # 3rd board (a table manager that tells everybody; the bundled
